@@ -102,7 +102,8 @@ class Bench:
             dt = time.time() - t
             m = s.model() if r == z3.sat else None
         self.n_queries += 1
-        self.cross_check(name, s, r)
+        if formula is not False:            # a syntactically false goal never reaches a solver
+            self.cross_check(name, s, r)
         if dt > 5 or os.environ.get("VERIF_VERBOSE"):
             log("[solve] %-50s %-7s %.1fs" % (name, r, dt))
         self.rep.query(name, str(r), dt)
